@@ -23,11 +23,16 @@ for d in sorted(glob.glob("/verif/seeded/C*")):
     else:
         verdict, how = f"inconclusive (exit {r.get('exit')})", "; ".join(r.get("signatures", [])[:2])
     tier = r.get("tier", "quick")
-    rows.append((sid, meta.get("title", "").replace("|", "/")[:110], verdict, tier, how.replace("|", "/")[:160]))
+    if r.get("note"):
+        how = (how + " — " if how else "") + r["note"]
+    if verdict == "MISSED" and "not claimed" in r.get("note", ""):
+        verdict = "not claimed"
+    rows.append((sid, meta.get("title", "").replace("|", "/")[:110], verdict, tier, how.replace("|", "/")[:260]))
 out = ["| seed | change | verdict | tier | first signatures |", "|---|---|---|---|---|"]
 out += [f"| {a} | {b} | {c} | {t} | {d} |" for a, b, c, t, d in rows]
 caught = sum(1 for r in rows if r[2] == "caught")
 out.append("")
-out.append(f"{caught} of {len(rows)} seeded defects caught.")
+nc = sum(1 for r in rows if r[2] == "not claimed")
+out.append(f"{caught} of {len(rows)} seeded defects caught, {nc} outside what the check claims, {len(rows) - caught - nc} missed.")
 open("/verif/seeded/RESULTS.md", "w").write("\n".join(out) + "\n")
 print("\n".join(out))
